@@ -1479,6 +1479,7 @@ fn coverage(file: &str, item: &str) -> Option<&'static str> {
         // ---- config.rs
         ("config.rs", "ConsistencyLevel::Eventual" | "ConsistencyLevel::Causal" | "ReplicationConfig.consistency_level" | "ReplicationConfig::with_causal_consistency") => "not read by placement / routing (C06's subject); both values occur in the builder shapes",
         ("config.rs", "ReplicationConfig.enabled" | "ReplicationConfig.replica_id" | "ReplicationConfig.peers" | "ReplicationConfig.partitioned_mode" | "ReplicationConfig.selective_gossip") => "driven: RCFG / LOOP (generated: replica_id 0..n+2 and u64::MAX, 0..n peers, all eight flag combinations)",
+        ("config.rs", "ReplicationConfig::peer_replica_id") => "driven: RCFG (the router's address book) and LOOP (the loops' address map) both go through it; replica_id 0..n+2 and u64::MAX",
         ("config.rs", "ReplicationConfig.gossip_interval_ms" | "ReplicationConfig::gossip_interval") => "driven: LOOPI (0 / 1 / u64::MAX), LOOP (1 ms)",
         ("config.rs", "ReplicationConfig.replication_factor" | "ReplicationConfig.virtual_nodes_per_physical" | "ReplicationConfig::with_replication_factor" | "ReplicationConfig::with_virtual_nodes") => "no code in src/ builds a HashRing from these two fields (rings are built by callers with explicit arguments); the ring's own rf 0..7 / vnodes 0..200 are generated; the builder shapes feed them into HashRing::new",
         ("config.rs", "ReplicationConfig::new_single_node" | "ReplicationConfig::new_cluster" | "ReplicationConfig::new_partitioned_cluster" | "ReplicationConfig::with_partitioned_mode" | "ReplicationConfig::is_partitioned" | "ReplicationConfig::uses_selective_gossip" | "ReplicationConfig::cluster_size") => "driven: builder shapes through GossipRouter::from_config (RCFG)",
